@@ -742,7 +742,7 @@ def _features_check(prop, tier, rule, assumptions, layouts):
     vlib.build_harness()
     exe = vlib.build_server(False)
     sets = [("MC_SplStatic_valid", 4), ("MC_SplStatic_valid3s", 1), ("MC_SplStatic_shadow", 4), ("MC_SplStatic_shadowt", 8), ("MC_SplStatic_body", 5), ("MC_SplStatic_expr18", 12)] if tier == "quick" \
-        else [("MC_SplStatic_valid17", 3), ("MC_SplStatic_valid3", 2), ("MC_SplStatic_shadow", 1), ("MC_SplStatic_shadowt25", 8), ("MC_SplStatic_body22", 3), ("MC_SplStatic_expr20", 25)]
+        else [("MC_SplStatic_valid17", 3), ("MC_SplStatic_valid3", 2), ("MC_SplStatic_shadow", 1), ("MC_SplStatic_shadowt25", 8), ("MC_SplStatic_body22", 3), ("MC_SplStatic_expr20", 25), ("MC_SplStatic_types", 30)]
     for cfg, stride in sets:
         res = vlib.tlc("MC_SplStatic", cfg + ".cfg", prop.lower() + "_" + cfg, timeout=6000, heap="16g")
         vlib.require_coverage(res, ["PlanProc", "PlanDone", "Expand", "Shift", "Act"] + ([] if "shadow" in cfg or "body" in cfg or "expr" in cfg else ["PlanType"]))
